@@ -239,6 +239,40 @@ impl S3OcflStore {
         }
     }
 
+    /// Ensures that the root of a new object is a path inside the storage root that is not within
+    /// the extensions directory and not nested within the root of another object
+    fn validate_object_root(&self, object_id: &str, object_root: &str) -> Result<()> {
+        let parts: Vec<&str> = object_root.split('/').collect();
+        let mut current = String::new();
+
+        for (i, part) in parts.iter().enumerate() {
+            if part.is_empty() || *part == "." || *part == ".." {
+                return Err(RocflError::IllegalState(format!(
+                    "Cannot create object {} because its object root, {}, is not a path within the storage root",
+                    object_id, object_root
+                )));
+            }
+
+            if i == 0 && *part == EXTENSIONS_DIR {
+                return Err(RocflError::IllegalState(format!(
+                    "Cannot create object {} because its object root, {}, is within the storage root's extensions directory",
+                    object_id, object_root
+                )));
+            }
+
+            current = join(&current, part);
+
+            if i + 1 < parts.len() && is_object_dir(&self.s3_client.list_dir(&current)?.objects) {
+                return Err(RocflError::IllegalState(format!(
+                    "Cannot create object {} because its object root, {}, is nested within the object at {}",
+                    object_id, object_root, current
+                )));
+            }
+        }
+
+        Ok(())
+    }
+
     fn upload_all_files_with_rollback(
         &self,
         dst_path: &str,
@@ -467,6 +501,8 @@ impl OcflStore for S3OcflStore {
                 }
             }
         };
+
+        self.validate_object_root(&inventory.id, &object_root)?;
 
         if !self.s3_client.list_dir(&object_root)?.is_empty() {
             return Err(RocflError::IllegalState(format!(
